@@ -9,6 +9,7 @@ with the tree the *description* prescribes by the documented rules:
 * attribute field: local name likewise; namespace only when given in the metadata;
 * a nested model value is written under the *field's* name, not its class name;
 * None is omitted, unless the element field is nillable (empty element with xsi:nil="true");
+  an object without content under a nillable field also carries xsi:nil="true";
 * lists repeat the element; `wrapper` adds one enclosing element in the field's namespace
   (also around an empty list);
 * a text field is the element's character content; order is field definition order.
@@ -66,7 +67,7 @@ def rand_model(rng, depth):
              "wrapper": None, "type": "str"}
         if depth > 0 and rng.random() < 0.45:
             f["type"] = rand_model(rng, depth - 1)
-            f["nillable"] = False
+            f["nillable"] = f["nillable"] and not f["list"]
         elif f["list"] and rng.random() < 0.4:
             f["wrapper"] = rng.choice(["wrap", "items"])
             f["local"] = f["local"] or "item"
@@ -84,7 +85,7 @@ def rand_instance(rng, m):
     inst = {}
     for f in m["fields"]:
         if f["kind"] == "attribute":
-            inst[f["name"]] = rng.choice([None, rng.choice(TEXTS[:3] + TEXTS[4:])])
+            inst[f["name"]] = rng.choice([None, rng.choice(TEXTS)])
         elif f["kind"] == "text":
             inst[f["name"]] = rng.choice([None, rng.choice(TEXTS)])
         else:
@@ -184,7 +185,8 @@ def expected(m, inst, name, parent_ns):
                 if isinstance(f["type"], dict):
                     # a class without Meta.namespace inherits the namespace of the enclosing instance's class
                     # (repair c01g-01: the serializer hands meta.namespace down like the parser; before: the
-                    # namespace of the enclosing element name, name[0])
+                    # namespace of the enclosing element name, name[0]); an object under a nillable field is
+                    # not xsi:nil because of the field (repair c01g-03)
                     items.append(expected(f["type"], x, (ens, local), cns))
                 else:
                     items.append(["e", ens, local, [], [["t", x]] if x else []])
@@ -241,7 +243,7 @@ def covered_object(a, msg):
         return None
     w, kind = mm.group(1), mm.group(2)
     fake = {"ns_map": a["ns_map"], "events": [], "cfg": {}}
-    for fid in ("c03-reserved-prefix",):
+    for fid in ("c03-prefix-unicode-ncname",):
         pred, where = O.KNOWN[fid]
         if kind in where.get(w, ()) and pred(fake):
             return fid
@@ -253,7 +255,7 @@ OBJ_MAPS = [[], [], [[None, "urn:m1"]], [["", "urn:m2"]], [["p", "urn:m1"]], [["
 
 
 def gen_object(rng, tier):
-    n = 500 if tier == "quick" else 6000
+    n = 500 if tier == "quick" else 15000
     for _ in range(n):
         m = rand_model(rng, rng.choice([0, 1, 1, 2]))
         yield {"model": m, "inst": rand_instance(rng, m), "ns_map": [list(x) for x in rng.choice(OBJ_MAPS)]}
@@ -266,7 +268,7 @@ SAFE_OBJ_MAPS = [[], [], [["p", "urn:m1"], ["q", "urn:f1"]], [["unused", "urn:zz
 
 
 def gen_ser_object(rng, tier):
-    n = 600 if tier == "quick" else 8000
+    n = 600 if tier == "quick" else 20000
     for _ in range(n):
         m = rand_model(rng, rng.choice([0, 1, 1, 2, 2]))
         yield {"model": m, "inst": rand_instance(rng, m), "ns_map": [list(x) for x in rng.choice(SAFE_OBJ_MAPS)]}
